@@ -917,12 +917,12 @@ func propC18Config(t veriflib.TB, c c18CfgCase) {
 }
 
 func genC18CfgCase(t *rapid.T) c18CfgCase {
-	k := rapid.SampledFrom([]string{"absent", "smallint", "smallint", "smallint", "listed", "listed", "fractional", "generated"}).Draw(t, "argkind")
+	k := rapid.SampledFrom([]string{"absent", "smallint", "listed", "listed", "fractional", "fractional", "generated", "generated"}).Draw(t, "argkind")
 	switch k {
 	case "absent":
 		return c18CfgCase{"", k}
-	case "smallint": // every whole number of GiB an operator is likely to ask for
-		return c18CfgCase{strconv.Itoa(rapid.IntRange(0, 128).Draw(t, "gib")), k}
+	case "smallint":
+		return c18CfgCase{strconv.Itoa(rapid.IntRange(0, 100000).Draw(t, "gib")), k}
 	case "listed":
 		return c18CfgCase{rapid.SampledFrom([]string{"0", "1", "19", "20", "21", "20.0", "2e1", "20.5", "19.999", "50", "256", "0.5", "0.001",
 			"1000000", "1e20", "17179869184", "-1", "NaN", "Inf", "1e-9", "020"}).Draw(t, "arg"), k}
@@ -943,6 +943,10 @@ func TestVerif_C18_Config(t *testing.T) {
 		return
 	} else if veriflib.Replaying() {
 		t.Skip()
+	}
+	// every whole number of GiB from 0 to 128, exhaustively (divided among the shards), then generated texts
+	for gib := veriflib.ShardIndex(); gib <= 128; gib += veriflib.NShards() {
+		propC18Config(t, c18CfgCase{Arg: strconv.Itoa(gib), Kind: "sweep0-128"})
 	}
 	rapid.Check(t, func(t *rapid.T) {
 		c := genC18CfgCase(t)
